@@ -483,6 +483,7 @@ class Num(Val):
         self.fsf = None         # exact value as a multiple of the sampling rate: value = fsf * sampling (sympy expression in the sizes)
         self.cover = None       # 1-D work buffers: what each piece holds (zeros / stored values / an earlier transform), see cover.py
         self.c64 = False        # complex data held in single precision (complex64): `x.dtype == complex` is False for it
+        self.uninit = False     # allocated by numpy.empty and not yet provably overwritten everywhere
         self.fgrid = None       # 1-D frequency grid: element i = (a + b*i) * sampling, stored as sympy (a, b)
         self.intdt = False      # the value may be held in the INTEGER dtype of integer-typed input data (products can overflow)
         self.rowview = None     # this vector is the row view M[e] of a named local matrix: (name, index AST, {name: id(value)} of the index operands)
@@ -507,6 +508,7 @@ class Num(Val):
         c.intdt = self.intdt
         c.fsf = self.fsf
         c.fgrid = self.fgrid
+        c.uninit = self.uninit
         c.c64 = self.c64
         c.cover = self.cover
         c.idxseg = self.idxseg
@@ -767,6 +769,7 @@ def num_join(a, b):
     r.sz = sz_join(a, b)
     from . import cover as _cv
     r.cover = _cv.join(a.cover, b.cover)
+    r.uninit = a.uninit or b.uninit
     r.view_of = a.view_of | b.view_of
     r.mid = a.mid if a.mid == b.mid else None
     r.whole = a.whole and b.whole
